@@ -47,3 +47,14 @@ def run(ctx):
             vlib.decide_relative(ctx, s, explain="explain_c14",
                                  theorem="C14_refill4_eq_4_refills, C14_refill_emits_then_advances",
                                  what="Model/ChaChaGuts.v refill / refill_wide")
+    # the portable back end (ppv-lite86 `no_simd`): generic.rs u64x2 add / insert / extract under d0123, add_pos, inc_block_ct
+    for profile in ("debug", "release"):
+        binary, log = vlib.cargo_build(features=("no_simd",), profile=profile, bin_name="h_chacha")
+        if binary is None:
+            raise vlib.CheckError("harness build failed (no_simd %s): %s" % (profile, log[-2000:]))
+        s = vlib.correspondence(ctx, binary, "c14", ["--count", n, "--level", 0], "portable/%s" % profile)
+        ctx.log("portable/%s: %d cases, %d disagree with the model, %d direct failures" %
+                (profile, s.get("evaluations", 0), len(s["failing"]), len(s.get("direct_failures", []))))
+        vlib.decide_relative(ctx, s, explain="explain_c14",
+                             theorem="C14_refill4_eq_4_refills, C14_refill_emits_then_advances",
+                             what="Model/ChaChaGuts.v refill / refill_wide")
